@@ -134,6 +134,8 @@ partial def opOf (j : Json) : Except String Op := do
       | _ => .error "farcall_list item") (← field j "items")
     pure (.farcallList items)
   | "raise" => pure .raise
+  | "attempt" => pure (.attempt (← jList? opOf (← field j "body")))
+  | "load_bad" => pure (.loadBad (← jStr? (← field j "path")))
   | _ => .error s!"unknown op kind {k}"
 
 /-- op `gc.session`: `{cfg, ops}` → analysis of what the model writes + the model's bookkeeping -/
